@@ -158,6 +158,30 @@ def oracle(case: dict):
             return None
         finally:
             shutil.rmtree(d, ignore_errors=True)
+    if kind == "parse-order":
+        # the order option of parse: the dict parse() RETURNS is ordered at every level (and the file it wrote reads back to
+        # the same association), with a fresh target and onto an existing one, in both modes
+        d = Path(tempfile.mkdtemp(prefix="c15p_", dir=os.environ.get("VERIF_SCRATCH", "/var/tmp")))
+        try:
+            src = d / "src"
+            dictIO.DictWriter.write(copy.deepcopy(t), src, mode="w")
+            plain = gen.plain(dict(dictIO.DictReader.read(src, comments=False)))
+            if case["existing"]:
+                dictIO.DictWriter.write(copy.deepcopy(case["t2"]), d / "parsed.src", mode="w")
+            try:
+                r = dictIO.DictParser.parse(src, order=True, mode=case["mode"], comments=False)
+            except Exception as e:  # noqa: BLE001
+                return ("file-raises", f"parse(order=True, mode={case['mode']!r}) raised {type(e).__name__}: {e}")
+            got = gen.plain(dict(r))
+            strip = lambda x: {k: v for k, v in x.items() if not (isinstance(k, str) and "COMMENT" in k)}  # noqa: E731
+            got = strip(got)
+            if not is_sorted_deep(got):
+                return ("parse-order", f"parse(order=True, mode={case['mode']!r}, existing target: {case['existing']}) returned {got!r}: not in ascending order at some level")
+            if not (case["existing"] and case["mode"] == "a") and not assoc_eq(got, strip(plain)):
+                return ("order-assoc", f"parse(order=True) returned {got!r}, the source reads {strip(plain)!r}")
+            return None
+        finally:
+            shutil.rmtree(d, ignore_errors=True)
     if kind == "reorder":
         # one SDict instance: order, add keys below the top level (no top-level write), order again
         s = dictIO.SDict(copy.deepcopy(t))
@@ -283,6 +307,17 @@ def run(ctx):
         if r:
             ctx.oracle_fail(c, r[0], r[1])
         ctx.count(("f", ext, wire.enc_tree(t)), not is_sorted_deep(t), "file" + (ext or ".native"))
+    # the order option of parse (returned dict), fresh and existing target, both modes
+    for i in range(ctx.n(40, 600)):
+        t = gen.dom_tree(rng, max_nodes=rng.choice([6, 15]), max_depth=3, int_keys=0.0, key=tricky_key, leaf=lambda r: gen.dom_scalar(r))
+        t2 = gen.dom_tree(rng, max_nodes=5, max_depth=2, int_keys=0.0, key=tricky_key, leaf=lambda r: gen.dom_scalar(r))
+        if not t:
+            continue
+        c = {"kind": "parse-order", "t": t, "t2": t2, "mode": rng.choice(["a", "w"]), "existing": rng.random() < 0.6}
+        r = oracle(c)
+        if r:
+            ctx.oracle_fail(c, r[0], r[1])
+        ctx.count(("po", wire.enc_tree(t), c["mode"], c["existing"]), not is_sorted_deep(t), "parse-order")
     # commented sources: comments at the top level, in nested dicts and in dicts that are list items
     for i in range(ctx.n(40, 400)):
         ks = rng.sample(["zeta", "alpha", "mid", "b2", "Beta", "k9"], 4)
